@@ -568,6 +568,65 @@ func (w *World) remainderChainTree(root *ssa.Function, inflow *ssa.Parameter, fn
 			}
 		}
 	}
+	// cells: the running value kept in a field of the routine's own state object (`d.left = d.left.Sub(share)`): a load
+	// of field F of struct T is on the chain when every store to T.F anywhere in the module stores a chain value
+	type cellKey struct {
+		T *types.Named
+		F string
+	}
+	cellOf := func(v ssa.Value) (cellKey, bool) {
+		u, ok := v.(*ssa.UnOp)
+		if !ok || u.Op != token.MUL || !isDC(u.Type()) {
+			return cellKey{}, false
+		}
+		fa, ok := u.X.(*ssa.FieldAddr)
+		if !ok {
+			return cellKey{}, false
+		}
+		T, f := fieldOf(fa)
+		if T == nil || T.Obj().Pkg() == nil || !strings.HasPrefix(T.Obj().Pkg().Path(), modPath) || T.Obj().Exported() {
+			return cellKey{}, false // only an unexported helper struct of the module (not a stored / protobuf type)
+		}
+		return cellKey{T, f}, true
+	}
+	cellStores := map[cellKey][]ssa.Value{}
+	cellForeign := map[cellKey]bool{}
+	cellLoads := map[ssa.Value]cellKey{}
+	for _, fn := range fns {
+		for _, b := range fn.Blocks {
+			for _, in := range b.Instrs {
+				if u, ok := in.(*ssa.UnOp); ok {
+					if k, ok := cellOf(u); ok {
+						cellLoads[u] = k
+						chain[u] = true
+					}
+				}
+			}
+		}
+	}
+	if len(cellLoads) > 0 {
+		for _, f := range w.ProdFuncs() {
+			for _, fs := range FieldStores(f) {
+				if fs.Struct == nil {
+					continue
+				}
+				k := cellKey{fs.Struct, fs.Field}
+				used := false
+				for _, k2 := range cellLoads {
+					if k2 == k {
+						used = true
+					}
+				}
+				if !used {
+					continue
+				}
+				if !inTree[f] {
+					cellForeign[k] = true
+				}
+				cellStores[k] = append(cellStores[k], fs.Store.Val)
+			}
+		}
+	}
 	retOK := func(h *ssa.Function, idx int) bool {
 		rets := Returns(h)
 		for _, ret := range rets {
@@ -615,6 +674,14 @@ func (w *World) remainderChainTree(root *ssa.Function, inflow *ssa.Parameter, fn
 				}
 			case *ssa.Extract:
 				keep = retOK(x.Tuple.(*ssa.Call).Common().StaticCallee(), x.Index)
+			case *ssa.UnOp:
+				k := cellLoads[x]
+				keep = !cellForeign[k] && len(cellStores[k]) > 0
+				for _, sv := range cellStores[k] {
+					if !chain[sv] {
+						keep = false
+					}
+				}
 			}
 			if !keep {
 				delete(chain, v)
@@ -683,15 +750,80 @@ func conserveRule(w *World, r *Report, rule string, a distAnchors) {
 			}
 		}
 		pos := w.Pos(s.Instr.Pos())
-		if c, ok := x.(*ssa.Call); ok && strings.HasSuffix(callName(c.Common()), "keeper.calculatePercentage") {
-			// must have been subtracted from the remainder, dominating the credit
-			sub := false
-			for _, c2 := range subs {
-				if c2.Parent() == cf && c2.Common().Args[1] == x && chain[c2.Common().Args[0]] && instrDominates(c2, s.Instr) {
-					// and the subtraction's result must flow on (be part of the chain feeding later phis)
-					if c2.Referrers() != nil && len(*c2.Referrers()) > 0 {
-						sub = true
+		// a computed share: the percentage call itself, or the result of a tree helper every return of which yields one
+		// (`share := d.takeShare(pct)`)
+		inTreeFn := map[*ssa.Function]bool{}
+		for _, f := range fns {
+			inTreeFn[f] = true
+		}
+		var shareCalls func(v ssa.Value, depth int) ([]*ssa.Call, bool)
+		shareCalls = func(v ssa.Value, depth int) ([]*ssa.Call, bool) {
+			if depth > 3 {
+				return nil, false
+			}
+			idx := 0
+			var c *ssa.Call
+			switch y := v.(type) {
+			case *ssa.Call:
+				c = y
+			case *ssa.Extract:
+				c, _ = y.Tuple.(*ssa.Call)
+				idx = y.Index
+			}
+			if c == nil {
+				return nil, false
+			}
+			if strings.HasSuffix(callName(c.Common()), "keeper.calculatePercentage") {
+				return []*ssa.Call{c}, true
+			}
+			h := c.Common().StaticCallee()
+			if h == nil || !inTreeFn[h] || c.Common().IsInvoke() {
+				return nil, false
+			}
+			var out []*ssa.Call
+			rets := Returns(h)
+			for _, ret := range rets {
+				rv := retVals(ret)
+				if idx >= len(rv) {
+					return nil, false
+				}
+				cs, ok := shareCalls(rv[idx], depth+1)
+				if !ok {
+					return nil, false
+				}
+				out = append(out, cs...)
+			}
+			return out, len(rets) > 0
+		}
+		if pcs, ok := shareCalls(x, 0); ok {
+			// must have been subtracted from the remainder, dominating the credit (in the crediting function, or in the
+			// helper that computes the share before it returns it)
+			sub := true
+			for _, pc := range pcs {
+				g := pc.Parent()
+				found := false
+				for _, c2 := range subs {
+					if c2.Parent() != g || c2.Common().Args[1] != ssa.Value(pc) || !chain[c2.Common().Args[0]] {
+						continue
 					}
+					dom := false
+					if g == cf {
+						dom = instrDominates(c2, s.Instr)
+					} else {
+						dom = true
+						for _, ret := range Returns(g) {
+							if !instrDominates(c2, ret) {
+								dom = false
+							}
+						}
+					}
+					// and the subtraction's result must flow on (be part of the chain feeding later phis / the state cell)
+					if dom && c2.Referrers() != nil && len(*c2.Referrers()) > 0 {
+						found = true
+					}
+				}
+				if !found {
+					sub = false
 				}
 			}
 			r.Check(sub, rule, "share credited in "+s.Method+" was subtracted from the remainder", pos, "Sub(remainder, share) dominates the credit and flows on", "a share is credited to a destination without being taken from the remainder: coins would be counted twice")
